@@ -4,6 +4,8 @@ use crate::{
     signal::Signal,
     AsyncReceiver, ReceiveError, SendError,
 };
+#[cfg(kanal_verif)]
+use crate::verif::core;
 use core::{
     fmt::Debug,
     marker::PhantomPinned,
